@@ -14,6 +14,7 @@ This is a stripped down version of Armin Ronacher's ast module.
 :license: Python License.
 """
 
+import ast as _ast_module
 from _ast import Add
 from _ast import And
 from _ast import AST
@@ -717,6 +718,10 @@ class SourceGenerator(NodeVisitor):
         self.write("`")
         self.visit(node.value)
         self.write("`")
+
+    def visit_JoinedStr(self, node):
+        # f-strings: the standard library's printer
+        self.write(_ast_module.unparse(node))
 
     # Helper Nodes
 
